@@ -535,6 +535,23 @@ def run_c14_e2e(res, tier, seed, prop="C14"):
                 batch_edit("main", [("import lib", 0, "// first line\n"), ("pub fn main", len("pub fn main"), "QQ"), ("lib.target", 0, " ")])
                 batch_edit("lib", [("pub fn other", 0, "\n"), ("pub const k", len("pub const k"), "zz"), ("pub fn other", len("pub fn other"), "W")])
                 ask_all("batched")
+                # a module goes (closed, deleted on disk, the server told by a watched-files event) and another one comes, with a
+                # different line layout: the new document's answers are counted in the new document's lines
+                gone = ["main", "third"][k % 2]
+                c.notify("textDocument/didClose", {"textDocument": {"uri": uri[gone]}})
+                os.remove(f"{root}/src/{gone}.gleam")
+                c.notify("workspace/didChangeWatchedFiles", {"changes": [{"uri": uri[gone], "type": 3}]})
+                fresh = (f"// {noise(rng.randrange(5, 50))}\n" * rng.randrange(2, 6) + "import lib\n" +
+                         f"pub fn fresh() {{ #(\"{noise(rng.randrange(0, 15))}\",lib.target(), \"{noise(2)}\",lib.target()) }}\n")
+                texts["fresh"] = fresh
+                del texts[gone]
+                open(f"{root}/src/fresh.gleam", "w").write(fresh)
+                uri["fresh"] = "file://" + urllib.parse.quote(f"{root}/src/fresh.gleam")
+                byuri[f"{root}/src/fresh.gleam"] = "fresh"
+                byuri.pop(f"{root}/src/{gone}.gleam", None)
+                c.notify("textDocument/didOpen", {"textDocument": {"uri": uri["fresh"], "languageId": "gleam", "version": 1, "text": fresh}})
+                asks[:] = [a for a in asks if a[0] != gone] + [("fresh", "lib.target", 0, 4), ("fresh", "lib.target", 1, 4)]
+                ask_all("a module deleted, another one opened")
             finally:
                 c.close()
     finally:
